@@ -141,6 +141,9 @@ func (e *BE) inferPost(cone []*ssa.Function) []string {
 				for _, path := range bytesFieldPaths(p.Type(), "", 0) {
 					cs = append(cs, postCand{cLE(cR(i), cFieldP(j, path, 'l')), fmt.Sprintf("result %d <= len(%s%s)", i, p.Name(), path)})
 				}
+				for _, path := range intFieldPaths(p.Type(), "", 0) {
+					cs = append(cs, postCand{cLE(cR(i), cFieldP(j, path, 'v')), fmt.Sprintf("result %d <= %s%s", i, p.Name(), path)})
+				}
 			}
 			for _, k := range ints {
 				if k != i {
